@@ -250,6 +250,25 @@ Section ContainerProof.
     destruct g; cbn; split; congruence.
   Qed.
 
+  (* the run-time test the driver applies to every observed iteration order is sound for the hypothesis OrderOK *)
+  Lemma nodupb_sound (l : list K) : nodupb keqb l = true -> NoDup l.
+  Proof.
+    induction l as [|x r IH]; intros Hb; [constructor|]. cbn [nodupb] in Hb. apply Bool.andb_true_iff in Hb. destruct Hb as [Hx Hr].
+    constructor; [|apply IH; exact Hr]. intro Hin. apply Bool.negb_true_iff in Hx.
+    assert (Hex : existsb (keqb x) r = true). { apply existsb_exists. exists x. split; [exact Hin|]. apply Hk. reflexivity. }
+    congruence.
+  Qed.
+
+  Theorem order_okb_sound : forall h g order, GraphOK h g -> order_okb keqb g order = true -> OrderOK g order.
+  Proof.
+    intros h g order [Hnd _] Hb. unfold order_okb in Hb. apply Bool.andb_true_iff in Hb. destruct Hb as [Hb Hall].
+    apply Bool.andb_true_iff in Hb. destruct Hb as [Hnodup Hlen]. apply Nat.eqb_eq in Hlen.
+    unfold OrderOK. apply NoDup_Permutation_bis.
+    - apply nodupb_sound. exact Hnodup.
+    - rewrite map_length. lia.
+    - intros k Hin. rewrite forallb_forall in Hall. apply g_contains_true. apply Hall. exact Hin.
+  Qed.
+
   Theorem g_iter_perm : forall h g order, GraphOK h g -> OrderOK g order -> Permutation (g_iter keqb g order) (members g).
   Proof. exact g_iter_perm_. Qed.
 
